@@ -106,7 +106,8 @@ Inductive base_event :=
 | BArm (n : N)                     (* the next real function (1) / default body (2) panics *)
 | BLive                            (* observe the numbers of live instrumented values *)
 | BCallD (i : nat) (m a : N)       (* call of a D-trait method through its receiver kind, with re-entrant user code *)
-| BCloneFrom (i j : nat).          (* instance i .clone_from(instance j) *)
+| BCloneFrom (i j : nat)           (* instance i .clone_from(instance j) *)
+| BLendCall (i : nat) (m a : N).   (* u.make_ref(Caller { u: u.clone(), m, a }): the lent value's Drop calls u.m(a), swallowing a panic *)
 
 Record event := { ev_ctx : ctx; ev_base : base_event }.
 
@@ -206,7 +207,9 @@ Definition stored_in_method (s : state) (m : N) (mk : mocker) : N :=
 Definition live_values (cfg : config) (s : state) (handles : N) : N * N :=
   if handles =? 0 then (0, 0) else
   fold_left (fun '(v, u) '(m, mk) =>
-               if (m =? 4) || (m =? 5) then (v, u + stored_in_method s m mk) else (v + stored_in_method s m mk, u))
+               if (m =? 4) || (m =? 5) then (v, u + stored_in_method s m mk)
+               else if m =? 9 then (v, u + 2 * stored_in_method s m mk)     (* two Uniq per stored (Uniq, &str, Uniq) *)
+               else (v + stored_in_method s m mk, u))
             (c_table cfg) (0, 0).
 
 Definition show_panic (o : option string) : string :=
@@ -312,7 +315,7 @@ Definition show_res (r : string + string) : string :=
   | inr p => "P:" ++ p
   end.
 
-Definition step (w : world) (e : event) : world * string :=
+Definition step_core (w : world) (e : event) : world * string :=
   let x := ev_ctx e in
   match ev_base e with
   | BCall i m a =>
@@ -360,6 +363,11 @@ Definition step (w : world) (e : event) : world * string :=
     match live_inst w i with
     | None => (w, "invalid")
     | Some it => (set_insts w (upd (w_insts w) i (add_lent it)), "ok")
+    end
+  | BLendCall i m a =>
+    match live_inst w i with
+    | None => (w, "invalid")
+    | Some it => (set_insts w (upd (w_insts w) i (add_lent_call it m a)), "ok")
     end
   | BCount i =>
     match live_inst w i with
@@ -479,6 +487,49 @@ Definition step (w : world) (e : event) : world * string :=
     end
   end.
 
+(* ---------- teardown order (src/teardown.rs): the helper and the VALUE CHAIN are dropped first.  A lent value that owns a
+   clone of the mock may call it from its Drop; what such a call records is recorded before the error list is read ---------- *)
+Definition swallowed_call (cfg : config) (st : state * N) (c : N * N) : state * N :=
+  let '(s, armed) := st in
+  let '(m, a) := c in
+  match matcher_panics cfg s m a with
+  | Some sp => (sp, armed)
+  | None =>
+    let '(s1, act) := call hinfo N haccepts hdebug cfg s m a in
+    let '(s2, ar2, _) := eval_act 12 cfg armed s1 m a (a + 1) act in
+    (s2, ar2)
+  end.
+
+Definition release (w : world) (i : nat) (it : inst) : world :=
+  let '(s, ar) := fold_left (swallowed_call (w_cfg w)) (i_calls it) (w_state w, w_armed w) in
+  set_insts (set_armed (set_state w s) ar) (upd (w_insts w) i (clear_calls it)).
+
+(* what an event does to the value chain of an instance that holds such values: Some true = the instance is destroyed by a
+   teardown/drop that starts with the release of the chain; Some false = it is destroyed only after other code of the event
+   has run (a call, then the drop): the case language does not allow that ("invalid", in the harness too) *)
+Definition releasing (w : world) (b : base_event) : option (nat * inst * bool) :=
+  let pending (i : nat) (early : bool) :=
+    match live_inst w i with
+    | Some it => match i_calls it with [] => None | _ :: _ => Some (i, it, early) end
+    | None => None
+    end in
+  match b with
+  | BDrop i | BVerify i | BCloneFrom i _ => pending i true
+  | BNvid i => match pending i true with
+               | Some (i, it, e) => if i_original it then None else Some (i, it, e)   (* refused on a clone: consumed and dropped *)
+               | None => None
+               end
+  | BReport i | BCallOwn i _ _ | BCallD i _ _ => pending i false
+  | _ => None
+  end.
+
+Definition step (w : world) (e : event) : world * string :=
+  match releasing w (ev_base e) with
+  | None => step_core w e
+  | Some (i, it, true) => step_core (release w i it) e
+  | Some (_, _, false) => (w, "invalid")
+  end.
+
 Fixpoint steps (w : world) (es : list event) : list string :=
   match es with
   | [] => []
@@ -529,6 +580,7 @@ Definition Ev (o u : bool) (b : base_event) : event :=
 Definition call_ (i m a : N) := BCall (N.to_nat i) m a.
 Definition clone_ (i : N) := BClone (N.to_nat i).
 Definition clonefrom_ (i j : N) := BCloneFrom (N.to_nat i) (N.to_nat j).
+Definition lendcall_ (i m a : N) := BLendCall (N.to_nat i) m a.
 Definition drop_ (i : N) := BDrop (N.to_nat i).
 Definition verify_ (i : N) := BVerify (N.to_nat i).
 Definition nvid_ (i : N) := BNvid (N.to_nat i).
